@@ -480,13 +480,29 @@ ELEMENTARY = ['blank-before', 'delete', 'duplicate', 'indent4', 'dedent4', 'ff-s
               'indent1', 'join-next', 'ff-line-before', 'split']
 
 
+def splitlines_cr(text):
+    """Keep-ends split on \\r\\n, \\n and a bare \\r (the line breaks Python and parso know)."""
+    import re
+    parts = re.split(r'(\r\n|\n|\r)', text)
+    out = []
+    for j in range(0, len(parts) - 1, 2):
+        out.append(parts[j] + parts[j + 1])
+    if parts[-1]:
+        out.append(parts[-1])
+    return out
+
+
 def elementary(text, i, kind):
-    lines = splitlines(text)
+    lines = splitlines_cr(text)
     if not lines:
         return 'x = 1\n'
     i %= len(lines)
     ln = lines[i]
     pad = ln[:len(ln) - len(ln.lstrip(' \t\x0c'))]
+    nl = '\r\n' if ln.endswith('\r\n') else ('\r' if ln.endswith('\r') else '\n')
+    if nl != '\n':
+        # edits in a CR / CRLF file use that file's line ending
+        return _elementary_nl(lines, i, kind, pad, nl)
     if kind == 'blank-before':
         lines[i:i] = ['\n']
     elif kind == 'delete':
@@ -515,4 +531,35 @@ def elementary(text, i, kind):
     elif kind == 'split':
         k = len(ln) // 2
         lines[i:i + 1] = [ln[:k] + '\n', ln[k:]]
+    return ''.join(lines)
+
+
+def _elementary_nl(lines, i, kind, pad, nl):
+    ln = lines[i]
+    body = ln[:-len(nl)]
+    if kind == 'blank-before':
+        lines[i:i] = [nl]
+    elif kind == 'delete':
+        del lines[i]
+    elif kind == 'duplicate':
+        lines[i:i] = [ln]
+    elif kind == 'indent4':
+        lines[i] = '    ' + ln
+    elif kind == 'indent1':
+        lines[i] = ' ' + ln
+    elif kind == 'dedent4':
+        lines[i] = ln[min(4, len(pad)):]
+    elif kind == 'ff-start':
+        lines[i] = (pad[:-1] + '\x0c' if pad else '\x0c') + ln[len(pad):]
+    elif kind == 'append-stmt':
+        lines[i + 1:i + 1] = [pad + 'new_name = 1' + nl]
+    elif kind == 'comment-out':
+        lines[i] = pad + '# ' + ln[len(pad):]
+    elif kind == 'join-next':
+        lines[i] = body + ' '
+    elif kind == 'ff-line-before':
+        lines[i:i] = ['\x0c' + nl]
+    elif kind == 'split':
+        k = len(body) // 2
+        lines[i:i + 1] = [body[:k] + nl, body[k:] + nl]
     return ''.join(lines)
